@@ -19,13 +19,13 @@ import (
 )
 
 type C08Header struct {
-	Name      string  `json:"name"`
-	Required  bool    `json:"required"`
-	ByContent bool    `json:"by_content"` // defined by `content` instead of `schema`
-	Type      string  `json:"type"`       // integer | string
-	Format    string  `json:"format,omitempty"` // int32 (integers only)
+	Name      string   `json:"name"`
+	Required  bool     `json:"required"`
+	ByContent bool     `json:"by_content"`       // defined by `content` instead of `schema`
+	Type      string   `json:"type"`             // integer | string
+	Format    string   `json:"format,omitempty"` // int32 (integers only)
 	Max       *float64 `json:"max,omitempty"`
-	Value     *string `json:"value"` // nil = the response does not carry it
+	Value     *string  `json:"value"` // nil = the response does not carry it
 }
 
 type C08Resp struct {
@@ -510,44 +510,60 @@ func c08HeaderSpellings(meta *Meta) {
 	intS := openapi3.NewIntegerSchema().WithMax(6)
 	arrS := openapi3.NewArraySchema().WithItems(openapi3.NewIntegerSchema()).WithMaxItems(2)
 	objS := openapi3.NewObjectSchema().WithProperty("limit", openapi3.NewIntegerSchema().WithMax(6)).WithProperty("left", openapi3.NewIntegerSchema())
+	objS.Required = []string{"limit"}
 	shapes := []struct {
-		name         string
-		schema       *openapi3.Schema
-		good, bad    string
+		name      string
+		schema    *openapi3.Schema
+		good, bad string
 	}{{"integer", intS, "5", "7"}, {"array", arrS, "1,2", "1,2,3"}, {"object", objS, "limit,5,left,3", "limit,7,left,3"}}
 	for _, spelling := range []string{"X-Rate-Limits", "x-rate-limits", "X-rate-limits", "x-Rate-Limits"} {
 		for _, sh := range shapes {
 			for _, required := range []bool{true, false} {
-				for _, state := range []string{"good", "bad", "absent"} {
-					hd := &openapi3.Header{Parameter: openapi3.Parameter{Required: required, Schema: sh.schema.NewRef()}}
-					desc := "ok"
-					resp := &openapi3.Response{Description: &desc, Headers: openapi3.Headers{spelling: &openapi3.HeaderRef{Value: hd}}}
-					op := openapi3.NewOperation()
-					op.Responses = openapi3.NewResponses()
-					op.Responses.Set("200", &openapi3.ResponseRef{Value: resp})
-					item := &openapi3.PathItem{Get: op}
-					doc := &openapi3.T{OpenAPI: "3.0.0", Info: &openapi3.Info{Title: "t", Version: "1"}, Paths: openapi3.NewPaths()}
-					route := &routers.Route{Spec: doc, Path: "/h", PathItem: item, Method: "GET", Operation: op}
-					hdr := http.Header{}
-					switch state {
-					case "good":
-						hdr.Set(spelling, sh.good)
-					case "bad":
-						hdr.Set(spelling, sh.bad)
-					}
-					req := httptest.NewRequest("GET", "/h", nil)
-					in := &openapi3filter.ResponseValidationInput{RequestValidationInput: &openapi3filter.RequestValidationInput{Request: req, Route: route},
-						Status: 200, Header: hdr, Body: io.NopCloser(strings.NewReader("")), Options: &openapi3filter.Options{IncludeResponseStatus: true}}
-					var err error
-					pn := catchPanic(func() { err = openapi3filter.ValidateResponse(context.Background(), in) })
-					want := state == "good" || (state == "absent" && !required)
-					meta.Histogram["header spellings"]++
-					c := map[string]any{"header": spelling, "schema": sh.name, "required": required, "response_carries": state}
-					if pn != nil {
-						meta.GoViolation = append(meta.GoViolation, map[string]any{"signature": "header-spelling:panic", "cases": []any{c}, "go_observation": fmt.Sprint(pn), "judgement": "ValidateResponse panicked"})
-					} else if (err == nil) != want {
-						meta.GoViolation = append(meta.GoViolation, map[string]any{"signature": "header-spelling:verdict", "cases": []any{c}, "go_observation": fmt.Sprint(err),
-							"judgement": fmt.Sprintf("a %s %s header declared as %q (required=%v): accepted=%v", state, sh.name, spelling, required, err == nil)})
+				for _, state := range []string{"good", "bad", "absent", "other-explode"} {
+					for _, explode := range []*bool{nil, openapi3.BoolPtr(false), openapi3.BoolPtr(true)} {
+						// explode written out: an object header is name,value,... without it and name=value,... with it
+						good, bad, other := sh.good, sh.bad, ""
+						if sh.name == "object" {
+							other = "limit=5,left=3"
+							if explode != nil && *explode {
+								good, bad, other = "limit=5,left=3", "limit=7,left=3", "limit,5,left,3"
+							}
+						}
+						if state == "other-explode" && other == "" {
+							continue
+						}
+						hd := &openapi3.Header{Parameter: openapi3.Parameter{Required: required, Explode: explode, Schema: sh.schema.NewRef()}}
+						desc := "ok"
+						resp := &openapi3.Response{Description: &desc, Headers: openapi3.Headers{spelling: &openapi3.HeaderRef{Value: hd}}}
+						op := openapi3.NewOperation()
+						op.Responses = openapi3.NewResponses()
+						op.Responses.Set("200", &openapi3.ResponseRef{Value: resp})
+						item := &openapi3.PathItem{Get: op}
+						doc := &openapi3.T{OpenAPI: "3.0.0", Info: &openapi3.Info{Title: "t", Version: "1"}, Paths: openapi3.NewPaths()}
+						route := &routers.Route{Spec: doc, Path: "/h", PathItem: item, Method: "GET", Operation: op}
+						hdr := http.Header{}
+						switch state {
+						case "good":
+							hdr.Set(spelling, good)
+						case "bad":
+							hdr.Set(spelling, bad)
+						case "other-explode":
+							hdr.Set(spelling, other)
+						}
+						req := httptest.NewRequest("GET", "/h", nil)
+						in := &openapi3filter.ResponseValidationInput{RequestValidationInput: &openapi3filter.RequestValidationInput{Request: req, Route: route},
+							Status: 200, Header: hdr, Body: io.NopCloser(strings.NewReader("")), Options: &openapi3filter.Options{IncludeResponseStatus: true}}
+						var err error
+						pn := catchPanic(func() { err = openapi3filter.ValidateResponse(context.Background(), in) })
+						want := state == "good" || (state == "absent" && !required)
+						meta.Histogram["header spellings"]++
+						c := map[string]any{"header": spelling, "schema": sh.name, "required": required, "response_carries": state, "explode": explode}
+						if pn != nil {
+							meta.GoViolation = append(meta.GoViolation, map[string]any{"signature": "header-spelling:panic", "cases": []any{c}, "go_observation": fmt.Sprint(pn), "judgement": "ValidateResponse panicked"})
+						} else if (err == nil) != want {
+							meta.GoViolation = append(meta.GoViolation, map[string]any{"signature": "header-spelling:verdict", "cases": []any{c}, "go_observation": fmt.Sprint(err),
+								"judgement": fmt.Sprintf("a %s %s header declared as %q (required=%v): accepted=%v", state, sh.name, spelling, required, err == nil)})
+						}
 					}
 				}
 			}
